@@ -530,7 +530,8 @@ def shard_binding(args):
                     (verdict and verdict[0]) != (twin_verdict and twin_verdict[0])):
                 raise SeamError(
                     "fake entry points and the real dist-info route disagree on %r:\n"
-                    "dist-info: %r\nseam:      %r" % (case, summary(obs), summary(twin_obs)))
+                    "dist-info: %r\nseam:      %r"
+                    % (case, summary(obs), summary(twin_obs)))
             record(acc, case, verdict, obs)
             acc.count("bound-through-dist-info")
     return acc
